@@ -20,6 +20,25 @@ def demo(d):
     return (lines[0] if lines else p.stdout[-300:])
 
 
+def keep_in_corpus(pid, v, name):
+    sc = v.get('scenario')
+    if not isinstance(sc, dict): return
+    d = os.path.join(ROOT, 'corpus', pid)
+    out = None
+    if ('funs' in sc or 'contracts' in sc) and pid in ('C01', 'C02', 'C03', 'C04', 'C06', 'C08', 'C09', 'C10', 'C12', 'C14'): out = sc      # families that run corpus/<pid> first
+    elif pid == 'C05' and 'invs' in sc: out = sc
+    elif pid == 'C18' and 'module' in sc: out = sc['module']
+    elif pid == 'C19' and 'src' in sc: out = {k: sc[k] for k in ('src', 'types', 'quote') if k in sc}
+    elif pid == 'C17' and 'src' in sc and 'item' in sc: out = {'src': sc['src'], 'items': [sc['item']], 'helpers': ''}
+    elif pid == 'C16' and 'src' in sc and len(sc['src']) < 3900:
+        os.makedirs(d, exist_ok=True)
+        open(os.path.join(d, f'seeded-{name}.py'), 'w').write(sc['src']); print('corpus: kept', f'corpus/{pid}/seeded-{name}.py'); return
+    if out is None: return
+    os.makedirs(d, exist_ok=True)
+    json.dump(out, open(os.path.join(d, f'seeded-{name}.json'), 'w'), indent=1)
+    print('corpus: kept', f'corpus/{pid}/seeded-{name}.json')
+
+
 def main():
     name = sys.argv[1]
     d = os.path.join(ROOT, 'seeded', name)
@@ -51,6 +70,16 @@ def main():
         sh(['git', '-C', '/repo', 'checkout', '--', '.'])
         sh(['git', '-C', ROOT, 'checkout', '--', 'evidence'])     # evidence describes runs on the unchanged tree only
     res['caught'] = any(c['exit'] == 1 and c['violation'] for c in res['checks'].values())
+    # keep the first concrete failing input as a regression input of the family (run first by every later check)
+    for pid, c in res['checks'].items():
+        for v in c['violation']:
+            if 'no-failing-input-found' in v: continue
+            rp = v.split('replay=')[1].split()[0]
+            try:
+                keep_in_corpus(pid, json.load(open(rp)), name)
+            except Exception as e:
+                print('corpus: could not keep', rp, repr(e))
+            break
     json.dump(res, open(os.path.join(d, 'result.json'), 'w'), indent=1)
     print(json.dumps({k: res[k] for k in ('seed', 'caught', 'demo_unchanged', 'demo_changed')}, indent=1)[:1500])
     for pid, c in res['checks'].items():
